@@ -235,10 +235,26 @@ def gen_prog(rng):
             feats.add("sub")
             body.append(("subcircuit_block", rng.choice(["", 3, 0, 1])) + block("sequential_block", 1, False, True)[1:])
     hdr = [("let", "n", 2), ("let", "z", 0), ("register", "q", 3), ("map", "a", "q", 0, 2, 1)]
-    if rng.random() < 0.3:
+    r = rng.random()
+    if r < 0.3:
         hdr.insert(0, ("usepulses", "some.pulses", "*"))
-    mac = ("macro", "mm", "t", ("sequential_block", ("gate", "g", "t")))
-    return ("circuit",) + tuple(hdr) + (mac,) + tuple(body), feats
+    elif r < 0.4:
+        hdr[0:0] = [("usepulses", "some.pulses", "*"), ("usepulses", "other.pulses", "*")]
+    elif r < 0.5:
+        # the same import written twice is two header statements
+        hdr[0:0] = [("usepulses", "some.pulses", "*"), ("usepulses", "some.pulses", "*")]
+        feats.add("same-import-twice")
+    # macros are header data to this pass: whatever their bodies look like (not in normal form, a loop inside a parallel
+    # block), called or not, they come out as they went in
+    pool = [("macro", "mm", "t", ("sequential_block", ("gate", "g", "t"))),
+            ("macro", "mp", "x", "y", ("parallel_block", ("gate", "g", "x"), ("sequential_block", ("gate", "g", "y"), ("gate", "h", "y")))),
+            ("macro", "ms", "x", ("sequential_block", ("sequential_block", ("gate", "g", "x")), ("parallel_block", ("sequential_block", ("parallel_block", ("gate", "h", "x")))))),
+            ("macro", "ml", "x", ("sequential_block", ("parallel_block", ("sequential_block", ("loop", 2, ("sequential_block", ("gate", "g", "x"))))))),
+            ("macro", "me", ("parallel_block",))]
+    macs = [pool[0]] + rng.sample(pool[1:], rng.randint(0, 3))
+    if len(macs) > 1:
+        feats.add("macro-body-not-in-normal-form")
+    return ("circuit",) + tuple(hdr) + tuple(macs) + tuple(body), feats
 
 
 def duplicate_statement(rng, prog):
